@@ -148,6 +148,9 @@ def build_items(text, items, lo, hi):
         if it['t'] == 'decl':
             if it.get('semi') is None:
                 raise Outside('declaration-without-semicolon')
+            if it.get('empty'):
+                # the grammar of the Level B theorems has no value-less declaration (a value is a non-empty run)
+                raise Outside('declaration-with-empty-value')
             out.append(('decl', as_gap(text[cur:it['start']]), as_run(text[it['start']:it['name_end']]),
                         as_gap(text[it['name_end']:it['colon']]), as_gap(text[it['colon'] + 1:it['vstart']]),
                         as_run(text[it['vstart']:it['vend']]), as_gap(text[it['vend']:it['semi']])))
